@@ -35,11 +35,15 @@ def judge_of(km, origin):
         d = ctx.mem.get((km.cfg.name, km.name))
         if d is None:
             return [R.ob(name, 'memory', R.UNDECIDED, 'no memory record for the kernel')]
-        bad = [r for r in d['records'] if r['what'] in ('out_of_bounds', 'misaligned')]
+        bad = [r for r in d['records'] if r['what'] in ('out_of_bounds', 'misaligned', 'type_pun')]
         if bad:
             r = bad[0]
             where = ['%s:%d %s' % (f.replace('/repo/', ''), ln, fn) for f, ln, fn in r['dbg']][:5]
             obj = {'local': 'a local object of type %s' % r['name'].split(' = ')[0], 'arg': 'kernel argument %s' % r['name'], 'global': 'the global %s' % r['name']}[r['obj']]
+            if r['what'] == 'type_pun':
+                return [R.ob(name, 'aliasing', R.REFUTED, '%s at offset %d of %s: %s is a plain typed access in the baseline compiler\'s (g++) intrinsic headers, so this is a strict-aliasing violation '
+                             'and the stores / loads may be reordered or removed at -O2 (clang\'s headers use may_alias types, which hides it there)' % (r['kind'].replace('_', ' '), r['off'], {'local': 'a local object', 'arg': 'kernel argument', 'global': 'a global'}[r['obj']], r['name']),
+                             where=where, kernel=km.source())]
             if r['what'] == 'out_of_bounds':
                 msg = '%s of %d byte(s) at offset %d of %s, which is %d bytes: out of bounds for every input' % (r['kind'].replace('_', ' '), r['size'], r['off'], obj, r['objsize'])
             else:
